@@ -34,7 +34,7 @@ CHECKS = {
                      "XpmTokenFS models the file token at the grain of ipc lock / recount / create-open / create-write / observer callbacks / "
                      "reclaim threads (4M states, 2 processes); 2-3 real processes sharing one token directory run scripted scenarios "
                      "(contention, acquisition attempted while the other is inside the file creation, deaths) and their hook event logs "
-                     "must be behaviours of the model (every file operation inside the critical section, logged counts = recounted files). A job that ends, gives its token back and comes back under the same token file name asking for more while another scheduler is suspended (scenario larger_again; Resubmit, JobLocked and FixF23 in the model; MC_TokenFS_resubmit holds, MC_TokenFS_resubmit_F23 shows the stale reclaim): RunningHoldFile, RunningUnderCapacity. The same job taking the token again before the deletion event of its former token file is handled (own release or foreign reclaim during an aborted start; the lock a process holds does not stop its own threads: JobLockedAgainst, Own, FixF28; scenarios again_stale_event / again_stale_foreign with the pause point evt.deleted; MC_TokenFS_resubmit_F28 shows the job running without its token file). token.info declared again with a lower total inside the start window of another scheduler (scenario shrunk_at_start). Random walks of two schedulers and three jobs over the life of a token, commands issued in pairs at the same moment (sc_random: 240 per thorough run, seeded by VERIF_SEED; the quick tier keeps to the scripted, forced interleavings), validated like the scripted logs; a trace rejected at a recount overlapped by the announced deletion of a reclaim thread is validated with the other order as well.",
+                     "must be behaviours of the model (every file operation inside the critical section, logged counts = recounted files). A job that ends, gives its token back and comes back under the same token file name asking for more while another scheduler is suspended (scenario larger_again; Resubmit, JobLocked and FixF23 in the model; MC_TokenFS_resubmit holds, MC_TokenFS_resubmit_F23 shows the stale reclaim): RunningHoldFile, RunningUnderCapacity. The same job taking the token again before the deletion event of its former token file is handled (own release or foreign reclaim during an aborted start; the lock a process holds does not stop its own threads: JobLockedAgainst, Own, FixF28; scenarios again_stale_event / again_stale_foreign with the pause point evt.deleted; MC_TokenFS_resubmit_F28 shows the job running without its token file). token.info declared again with a lower total inside the start window of another scheduler (scenario shrunk_at_start). A trace rejected at a recount overlapped by the announced deletion of a reclaim thread is validated with the other order as well. (Random walks of two schedulers over the life of a token exist as an exploratory driver, XV_RANDOM_WALKS=<n>; they are not part of the registered check: see DESIGN I.6.)",
                 note=SCHED_NOTE + " E2-token: mini scheduler processes drive the real CounterToken; jobs are stand-ins holding the run lock; interleavings are scripted with pause points, not exhaustive."),
     "C09": dict(category="model_checking", engine="E1", design="5 (C09), 3.1, 3.3",
                 technique="TLA+ XpmScheduler: TLC deadlock freedom + IdleTokenIsFull + liveness; TLA+ XpmTokenFS: ObserversSurvive / Informed / ReclaimOnlyAfterEnd by TLC; trace validation of E1 executions (aborted starts) and of multi-process token logs with scheduler deaths (E2-token)",
@@ -42,7 +42,7 @@ CHECKS = {
                      "executions whose End event requires the model's terminal predicate (tokens full, nothing waiting). Death of a scheduler "
                      "followed by the job's own end, death in the middle of the token-file creation, partial returns of capacity: scripted on "
                      "real processes; at every quiescent point of the log a waiting job whose request fits must have been told, and the token "
-                     "files of ended jobs must be gone. Lost wake-ups inside the window of an aborted start are searched with starvation schedules and 5x more schedules on contention plans; the quiescent-point clauses of XpmTokenFS_Trace (told when it fits, files of ended jobs gone) are evaluated after waiting for events logged after their trigger. token.info declared again (see C06) and left truncated by a dead writer. XpmLazyTable: the table of process handlers built at first use by two reclaim threads at once (scenario two_killed_orphans; TLC on both designs; the counterexample's interleaving forced on the real Process.handler: F24). The owner's release raced by the reclaim thread of another scheduler between the test and the removal of the token file (RelCheck / RelUnlink, FixF26; scenario release_raced with the pause point delete.checked; MC_TokenFS_F26 shows the lost notification, MC_TokenFS_raced (thorough) every placement). A scheduler that starts while the token file of an ended job is still there (StartCount / StartWatch, FixF27, wl.late; scenario late_start_ended with the pause point init.counted and the event tok.watching; MC_TokenFS_F27 shows the unit lost for the newcomer, MC_TokenFS_latestart (thorough) every moment of the start). A release that finds its token file already removed by another scheduler while a job of the same scheduler waits (scenario missing_at_release); the same random walks as C08.", note=SCHED_NOTE + " Liveness across processes is checked at scripted quiescent points only."),
+                     "files of ended jobs must be gone. Lost wake-ups inside the window of an aborted start are searched with starvation schedules and 5x more schedules on contention plans; the quiescent-point clauses of XpmTokenFS_Trace (told when it fits, files of ended jobs gone) are evaluated after waiting for events logged after their trigger. token.info declared again (see C06) and left truncated by a dead writer. XpmLazyTable: the table of process handlers built at first use by two reclaim threads at once (scenario two_killed_orphans; TLC on both designs; the counterexample's interleaving forced on the real Process.handler: F24). The owner's release raced by the reclaim thread of another scheduler between the test and the removal of the token file (RelCheck / RelUnlink, FixF26; scenario release_raced with the pause point delete.checked; MC_TokenFS_F26 shows the lost notification, MC_TokenFS_raced (thorough) every placement). A scheduler that starts while the token file of an ended job is still there (StartCount / StartWatch, FixF27, wl.late; scenario late_start_ended with the pause point init.counted and the event tok.watching; MC_TokenFS_F27 shows the unit lost for the newcomer, MC_TokenFS_latestart (thorough) every moment of the start). A release that finds its token file already removed by another scheduler while a job of the same scheduler waits (scenario missing_at_release).", note=SCHED_NOTE + " Liveness across processes is checked at scripted quiescent points only."),
     "C05": dict(category="model_checking", engine="E1+E2", design="5 (C05), 3.1, 3.2",
                 technique="TLA+ XpmScheduler (registry, done markers, restart) + XpmJobDir (competing launches): TLC exhaustive + trace validation of E1 executions and of real-process races (E2)",
                 text="Registry de-duplication, 'never launched again when done' and re-submission are checked by TLC on the scheduler model and on "
